@@ -113,6 +113,7 @@ type Interp struct {
 	filterNode  map[int]*Value
 	filterSeq   int
 	peekSeq     int
+	pemSeq      int
 	inCond      bool
 	chanSeq     int
 	loopInit    map[string]Value // "<function>:<variable>" -> value the loop variable starts from
@@ -624,7 +625,7 @@ func (in *Interp) callFunction(caller *frame, fn *ssa.Function, args []Value, en
 		in.unsupported("external function without body: %s", fn.String())
 	}
 	in.depth++
-	if in.depth > 200 {
+	if in.depth > 200+20*len(in.threads) { // the counter is shared by all threads: blocked threads keep their frames
 		in.end("budget", "call depth")
 	}
 	defer func() { in.depth-- }()
@@ -900,7 +901,21 @@ func (fr *frame) visit(instr ssa.Instruction) bool {
 	case *ssa.Panic:
 		fr.tpanic("explicit", fr.get(x.X))
 	case *ssa.Send:
-		in.unsupported("chan send")
+		ch, _ := fr.get(x.Chan).(*Chan)
+		if ch == nil {
+			in.block("send on nil channel", func() bool { return false })
+		}
+		if ch.cp == 0 || ch.ctx != nil || ch.timer != nil {
+			in.unsupported("send on an unbuffered channel")
+		}
+		in.maybePreempt("chan")
+		c := ch
+		in.block("chan send", func() bool { return c.closed || len(c.queue) < c.cp })
+		if ch.closed {
+			fr.tpanic("explicit", CStr("send on closed channel"))
+		}
+		ch.queue = append(ch.queue, copyVal(fr.get(x.X)))
+		in.emit("chan.send", fmt.Sprintf("chan#%d", ch.id))
 	case *ssa.Store:
 		sp := fr.getPtr(x.Addr, "store")
 		if in.roCells[sp] {
@@ -925,7 +940,7 @@ func (fr *frame) visit(instr ssa.Instruction) bool {
 		in.spawn(fr, fn, args)
 	case *ssa.MakeChan:
 		in.objSeq++
-		fr.env[x] = &Chan{id: in.objSeq}
+		fr.env[x] = &Chan{id: in.objSeq, cp: in.concreteInt(fr, fr.get(x.Size), "make(chan) size")}
 	case *ssa.Alloc:
 		cell := new(Value)
 		*cell = in.zero(x.Type().(*types.Pointer).Elem())
